@@ -342,6 +342,26 @@ def case_variants(rng, D):
     return D
 
 
+def shadow_roots(rng, D):
+    """Finding H9: a type NAMED Query / Mutation / Subscription that is NOT the corresponding root (the root is absent,
+    or is another type). Without a `schema` block such a document would be read with that type as the root."""
+    plain = {"name": "x0", "type": gs.named("Int"), "args": [], "deprecated": None, "desc": None}
+    for op in ("mutation", "subscription", "query"):
+        conv = CONVENTIONAL[op]
+        if D.get(op) == conv or gs.desc_type(D, conv) is not None or rng.random() < 0.4:
+            continue
+        if op == "query" and D.get("query") is None:
+            continue
+        kind = rng.choice(["object", "object", "scalar", "enum"])
+        t = {"kind": kind, "name": conv, "desc": None}
+        if kind == "object":
+            t.update(interfaces=[], fields=[copy.deepcopy(plain)])
+        if kind == "enum":
+            t.update(values=[{"name": "ONLY", "deprecated": None, "desc": None}])
+        D["types"].append(t)
+    return D
+
+
 def decorate(rng, D, rich=True):
     """In-place variations of the declared content: root names, subscription, richer descriptions."""
     D = copy.deepcopy(D)
@@ -363,6 +383,8 @@ def decorate(rng, D, rich=True):
             D["mutation"] = o["name"]
     if rng.random() < 0.2:
         case_variants(rng, D)
+    if rng.random() < 0.25:
+        shadow_roots(rng, D)
     if rich:
         def walk():
             for t in D["types"]:
@@ -476,6 +498,8 @@ def _items_of(rng, D, p_ext=0.45, s8_safe=True):
     # schema definition
     q, m, s = D.get("query"), D.get("mutation"), D.get("subscription")
     need = q != "Query" or m not in (None, "Mutation") or s not in (None, "Subscription")
+    # an ABSENT root shadowed by a type with the conventional name: only the schema block says it is not a root
+    need = need or any(r is None and gs.desc_type(D, c) is not None for r, c in ((q, "Query"), (m, "Mutation"), (s, "Subscription")))
     if need or rng.random() < 0.25:
         ops = [("query", q), ("mutation", m), ("subscription", s)]
         ops = [{"op": o, "type": n} for o, n in ops if n]
